@@ -7,6 +7,8 @@ NOTE = ("verdicts are z3 4.8.12 / z3 5.1.0 / cvc5 1.0 answers over the symgo SSA
         "every bound (lengths, unwinding, allocation, shapes) is listed per obligation in the evidence and checked, not assumed; "
         "translator validated per run by replaying reachability witnesses natively and in concrete mode; ")
 CLAIMED = {
+ "C10": ("the in-memory timed B-tree against a reference multi-version ordered map over bounded bulk-insert sequences from the empty tree (symbolic keys, values, timestamps; node size forcing splits): structure, in-order content, point lookups, revision counts, rejection of stale timestamps without change, and copy-on-write (a pinned root keeps answering as before)",
+         "flush, compaction, restart, readers (seek/end/direction), history log, snapshot policy and concurrency are outside the claim; 1-byte keys/values, at most 3 bulks", "DESIGN.md §4 C10"),
  "C03": ("hash-tree crash consistency on the real AHtree code: for every crash point between the appendable operations of a workload of n appends (sync thresholds 1..2/3, optional explicit syncs) and every combination of which unsynced writes reached each of the three logs (plus a torn last commit entry), reopening succeeds, keeps every entry covered by a completed sync and serves only roots/payloads of the appended sequence",
          "ONLY the hash tree: recovery of the whole store (store.OpenWith), the commit-step fsync ordering of ImmuStore.sync, the index, repeated crashes and concurrent committers are outside the claim; crash model and granularity are listed in the evidence", "DESIGN.md §4 C03"),
  "C04": ("what reaches the index: for every bulk of committed transactions within the bounds (bulk size, entries per tx, symbolic keys and non-indexable flags) the plain indexer hands the tree exactly one (key, tx id) per indexable entry, in order, with intact key content, and only advances the logical time when nothing is indexable",
